@@ -484,10 +484,49 @@ func c12RunCheck(c c12RunCase) error {
 	return nil
 }
 
+type c12MarathonCase struct {
+	Runs   int `json:"runs"`
+	Budget int `json:"budget"`
+}
+
+// c12Marathon: runs traced RunUntil calls in a row over a bank full of NOPs (2 cycles each) on the one System the
+// check uses throughout; each call must consume exactly its (even) budget and log one line per instruction.
+func c12Marathon(runs, budget int) error {
+	sys, scpu := c12System()
+	m := rig.NewMem(0xC12)
+	for a := uint32(0); a < 0x10000; a++ {
+		m.Poke(0x010000|a, 0xEA)
+	}
+	scpu.SetMem(m)
+	scpu.C.OnPC, scpu.C.OnWDM = nil, nil
+	scpu.LoadRaw(rig.ArchToRaw(wdc.Arch{S: 0x01F0, PC: 0x8000, K: 1, P: 0x34}))
+	defer func() { sys.Logger = nil }()
+	for i := 0; i < runs; i++ {
+		lw := &countWriter{}
+		sys.Logger = lw
+		before := scpu.Raw().AllCycles
+		if p := rig.Safe(func() error { sys.RunUntil(0x123456, uint64(budget)); return nil }); p != nil {
+			return fmt.Errorf("traced run %d of %d in a row on one System failed: %v", i+1, runs, p)
+		}
+		used := scpu.Raw().AllCycles - before
+		if used != uint64(budget) || lw.n < budget/2 || lw.n > budget/2+1 {
+			return fmt.Errorf("traced run %d of %d in a row on one System (NOPs, budget %d cycles): consumed %d cycles and logged %d lines, want %d and %d", i+1, runs, budget, used, lw.n, budget, budget/2)
+		}
+	}
+	return nil
+}
+
 func c12Replay(data []byte) error {
 	var rf rig.ReplayFile
 	if err := json.Unmarshal(data, &rf); err != nil {
 		return err
+	}
+	if rf.Kind == "marathon" {
+		var mc c12MarathonCase
+		if err := json.Unmarshal(rf.Case, &mc); err != nil {
+			return err
+		}
+		return c12Marathon(mc.Runs, mc.Budget)
 	}
 	if rf.Kind == "cell" {
 		var c c12Cell
@@ -509,7 +548,7 @@ func TestC12(t *testing.T) {
 	rig.Main(t, "C12", "part A (complete): every opcode x {E=1; E=0 x M x X} x DL zero/non-zero x index values {0,1,$FF} x operand low byte {00,FF} x flags all-clear/all-set "+
 		"(both branch outcomes) x displacement {+2,+$7F,-$80} x PC {page start, page end} on both interpreters: cycles >= 1, == CPU.Cycles, AllCycles += cycles, stop flag only for STP; plus every opcode as the first instruction of an interrupt handler entered by that step (IRQ with I clear/set, NMI). "+
 		"Parts B-D (rapid): JIT-synthesised programs on emulator.System (flat sparse bus) with RunUntil(target,max) for targets on/off the path and budgets 0, 1, exact-1/+0/+1, large, "+
-		"compared with the specification loop run on a twin CPU; OnPC/OnWDM call counts; Logger.Write counts; STP/Reset; every opcode is also stepped on a CPU made with InitFrom, and in a share of the untraced runs the first callback panics once and RunUntil is called again.  Non-trivial (B-D) = the target or the budget cut the run short; "+
+		"compared with the specification loop run on a twin CPU; OnPC/OnWDM call counts; Logger.Write counts; STP/Reset; every opcode is also stepped on a CPU made with InitFrom, and in a share of the untraced runs the first callback panics once and RunUntil is called again; 700 traced RunUntil calls in a row on one System must each consume exactly their budget.  Non-trivial (B-D) = the target or the budget cut the run short; "+
 		"distinct = enumerated cell, or hash(case).",
 		func(r *rig.Run) {
 			ev := r.Ev
@@ -602,6 +641,14 @@ func TestC12(t *testing.T) {
 				ev.ClassN("A/cycle-cells", n)
 				ev.Sample(c12Cell{Impl: "cpualt", Op: 0xBC, P: 0x30, X: 0xFF, Y: 0xFF, PC: 0x10F0, Operand: 0x7F12FF})
 				ev.Extra["part_A_exhaustive_over_its_cell_grid"] = true
+			}
+			// many traced runs on one System, some seventy thousand instructions in all: every run stays inside its budget
+			if rig.Shard() == 1%rig.Shards() {
+				if err := c12Marathon(700, 200); err != nil {
+					r.Violation("marathon", c12MarathonCase{700, 200}, err)
+				}
+				ev.Bulk(700, 700)
+				ev.ClassN("B/traced-runs-in-a-row-on-one-System", 700)
 			}
 			twin, _ := cpus()
 			var cut int64
